@@ -248,3 +248,40 @@ def rule_u(prog, chk):
                    detail=None if ok else "`%s` is argument #%d of MatrixSparse(nrow, ncol, opt_eigen): it is taken as a dimension and the back-end of the result is the "
                    "global default, not the one of the operands" % (show(a[pos[0]])[:40], pos[0] + 1), key="C11u|%s|%d" % (f.name, n))
     chk.floor("C11u", n, 4)
+
+
+def rule_q(prog, chk):
+    """C11q - order statistics are taken on the defined values.  In the reductions of VectorHelper a vector PARAMETER is never handed to
+    `sort` directly: the undefined values (1.234e30) would be sorted with the data and picked as the upper quantiles; what is sorted is a
+    local copy filled under an FFFF test (median, quantiles)."""
+    n = 0
+    for f in sorted(prog.funcs, key=lambda x: (x.file, x.line)):
+        if f.body is None or f.cls != "VectorHelper" or f.short in ("sort", "sortInPlace", "unique", "orderRanks", "sortRanks", "arrangeInPlace", "isSorted"):
+            continue
+        if not f.ret.replace("const ", "").startswith(("double", "VectorDouble")):
+            continue
+        pd = {p_["d"]: p_["n"] for p_ in f.params if "VectorDouble" in p_["t"]}
+        if not pd:
+            continue
+        for c in f.calls():
+            if (c.get("callee") or "").split("::")[-1] not in ("sort", "sortInPlace"):
+                continue
+            a = call_args(c)
+            if not a or a[0] is None:
+                continue
+            x = a[0]
+            while x["k"] == "Cast":
+                x = x["c"][0]
+            n += 1
+            bad = x["k"] == "DeclRefExpr" and x.get("d") in pd
+            if not bad and x["k"] == "DeclRefExpr":
+                # the sorted local must have been filled under a definedness test
+                filled = any(y["k"] == "MCall" and (y.get("callee") or "").split("::")[-1] == "push_back" and call_obj(y) is not None and call_obj(y).get("d") == x.get("d") and
+                             any(a_["k"] == "If" and any(z["k"] == "Call" and (z.get("callee") or "") in ("FFFF", "IFFFF") for z in walk(a_["c"][-3])) for a_ in f.ancestors(y))
+                             for y in f.walk())
+                bad = not filled
+            chk.analysed(f)
+            chk.ob("C11q", "%s: what is sorted holds the defined values only" % f.sig(), f.loc(c), not bad,
+                   detail=None if not bad else "`%s` is sorted as it is: undefined values (1.234e30) sort as the largest data and are returned as upper quantiles" % show(x),
+                   key="C11q|%s" % f.sig())
+    chk.floor("C11q", n, 2)
